@@ -773,13 +773,7 @@ t.wrap('Ordering::Greater => ', 'current = &mut data_node.right', '''proof {
                                     }''', after=True)
 emit(t)
 t=I(MAP, 'iter')
-t.sig(ret='it', spec='''requires self.wf(),
-        ensures
-            // the iterator will yield exactly the entries of the map, in strictly increasing key order, each once
-            it.rem().len() == self@.dom().len(),
-            forall|i: int, j: int| 0 <= i < j < it.rem().len() ==> (#[trigger] it.rem()[i]).0 < (#[trigger] it.rem()[j]).0,
-            forall|i: int| 0 <= i < it.rem().len() ==> self@.contains_key((#[trigger] it.rem()[i]).0) && self@[it.rem()[i].0] == it.rem()[i].1,
-            forall|k: u32| #[trigger] self@.contains_key(k) ==> exists|i: int| 0 <= i < it.rem().len() && (#[trigger] it.rem()[i]).0 == k,''',
+t.sig(ret=API['MAP_ITER'][0], spec=API['MAP_ITER'][1],
       prelude='''proof {
             let (lo, hi) = choose|lo: int, hi: int| #[trigger] bst(self.root, lo, hi);
             lemma_inorder_view(self.root, lo, hi); lemma_view_len(self.root, lo, hi);
@@ -788,6 +782,12 @@ t.tail('''proof {
             assert(derefs(r__.current_mappings@) =~= Seq::<PrefixTree2>::empty());
             assert(stack_rem(r__.stack@) =~= Seq::<(u32, V)>::empty());
             assert(r__.rem() =~= inorder_m(self.root, Seq::empty()));
+            // the protocol view is the same sequence with the values behind references
+            assert forall|i: int| 0 <= i < r__.rem().len() implies (#[trigger] r__.remaining()[i]).0 == r__.rem()[i].0 && *r__.remaining()[i].1 == r__.rem()[i].1 by {}
+            assert forall|k: u32| #[trigger] self@.contains_key(k) implies exists|i: int| 0 <= i < r__.remaining().len() && (#[trigger] r__.remaining()[i]).0 == k by {
+                let i = choose|i: int| 0 <= i < r__.rem().len() && (#[trigger] r__.rem()[i]).0 == k;
+                assert(r__.remaining()[i].0 == k);
+            }
         }''')
 emit(t)
 t=M('get', 'let ghost (glo, ghi) = choose|lo: int, hi: int| #[trigger] bst(self.root, lo, hi);')
@@ -841,16 +841,7 @@ t.after('self.current = Some(&mapping_node.child);', '''proof {
 t.before('                    return;', '''proof { assert(self.rem() =~= s0.rem()); }''')
 emit(t)
 glue('}', 'impl close')
-glue('''
-impl<'a, V: Clone> vstd::std_specs::iter::IteratorSpecImpl for Iter<'a, V> {
-    // the laws hold in EVERY state of the iterator (also over lazily mapped subtrees), so no well-formedness side condition is needed
-    open spec fn obeys_prophetic_iter_laws(&self) -> bool { true }
-    closed spec fn remaining(&self) -> Seq<(u32, &'a V)> { Seq::new(self.rem().len(), |i: int| (self.rem()[i].0, &self.rem()[i].1)) }
-    open spec fn will_return_none(&self) -> bool { true }
-    closed spec fn decrease(&self) -> Option<nat> { Some(self.rem().len()) }
-    closed spec fn peek(&self, i: int) -> Option<(u32, &'a V)> { if 0 <= i < self.rem().len() { Some((self.rem()[i].0, &self.rem()[i].1)) } else { None } }
-}
-''', 'IteratorSpecImpl for Iter (ghost)')
+glue(API['ITER_PROTOCOL'], 'IteratorSpecImpl for Iter (ghost; shared text annot/wbmap_api.py)')
 ITN = src.item(r"impl<'a, V: Clone> Iterator for Iter<'a, V>\s*\{", name='Iter')
 glue(ITN.header(), 'impl Iterator for Iter header (from source)')
 emit_plain(src.item(r"type Item = \(u32, &'a V\);", name='Iter::Item', within=ITN))
